@@ -4,7 +4,7 @@ From Coq Require Import List NArith Bool.
 From Coq Require String.
 Import String.StringSyntax.
 From Sccache Require Import Base.Sx Gen.C04Consts Model.PpPaths Model.TimeMacro Model.PpCache Model.LineMarker
-     Proofs.TimeMacro Proofs.PpCache Proofs.LineMarker Run.C04.
+     Model.PpTimeline Proofs.TimeMacro Proofs.PpCache Proofs.LineMarker Proofs.PpTimeline Run.C04.
 Import ListNotations.
 Local Open Scope N_scope.
 
@@ -70,6 +70,30 @@ Theorem C04_record_sound :
     (snd (apply_rec D H HT cfg e op) <> RecOk -> fst (apply_rec D H HT cfg e op) = e).
 Proof. exact record_sound. Qed.
 Print Assumptions C04_record_sound.
+
+(* WHERE the compile start instant is taken.  A run of the slow path is any time-stamped trace (time stamps never
+   decrease) whose program actions are, in the SOURCE ORDER transcribed from generate_hash_key (Gen `prelude_order`):
+   take the instant, the preprocessor reads its files one by one, record the includes - interleaved ANYWHERE with
+   writes / deletions of any files by the environment (a write sets the ctime to its time stamp, the mtime is
+   arbitrary).  If the recording succeeds, then every recorded include p has the digest of exactly the bytes the
+   preprocessor got each time it read p: a header modified at any instant >= the moment the preprocessor started is
+   never recorded with a digest newer than what the preprocessor saw.  The key fact "the instant is taken before the
+   preprocessor starts" is the side condition Proofs/PpTimeline.v `prelude_order_ok : prelude_order = [0; 1; 2]`
+   on the translated source order - it stops checking when the instant is taken later. *)
+Theorem C04_record_instant_sound :
+  forall (D : Type) (H : bytes -> D) (HT : option bytes -> option N -> D) (cfg : config) (date : bytes)
+         (input : path) (incs : list (path * bool)) (reads : list path) (fs0 : fsnap) (tr : trace),
+    times_sorted 0 tr = true ->
+    code_of tr = code_actions prelude_order reads ->
+    forall included, t_out D (trun D H HT cfg date input incs fs0 tr) = Some (Some included) ->
+    forall p d, In (p, d) included ->
+    exists nd,
+      n_kind nd = KFile /\
+      include_file_digest D HT (H (n_bytes nd)) (rec_flags cfg (n_bytes nd)) date (Some (n_mtime nd)) = Some d /\
+      forall q ob, In (q, ob) (t_seen D (trun D H HT cfg date input incs fs0 tr)) ->
+                   canon_path q = canon_path p -> ob = Some (n_bytes nd).
+Proof. exact record_instant_sound. Qed.
+Print Assumptions C04_record_instant_sound.
 
 (* The time-macro scan, for ALL ways of splitting the bytes into reads (any list of chunks): a flag is set
    if and only if the pattern occurs in the file. *)
@@ -233,3 +257,23 @@ Example C04_markers_example :
   | _ => False
   end.
 Proof. vm_compute. split; reflexivity. Qed.
+
+(* the start instant: with the source order [take; preprocess; record] a header saved after the preprocessor read it
+   makes the recording give up; were the instant taken after the preprocessor (order [preprocess; take; record]) the
+   NEW bytes would be recorded although the preprocessor saw the OLD ones - the hypothesis is necessary *)
+Definition tl_fs : fsnap := [(bs "/w/a.h", hdr (bs "OLD") 90 90)].
+Definition tl_incs : list (path * bool) := [(bs "/w/a.h", false)].
+Definition tl_good : trace :=
+  [(100, ECode CTake); (110, ECode (CRead (bs "/w/a.h"))); (120, EEnv (WFile (bs "/w/a.h") (bs "NEW") 120));
+   (130, ECode CRecord)].
+Definition tl_late : trace :=
+  [(110, ECode (CRead (bs "/w/a.h"))); (120, EEnv (WFile (bs "/w/a.h") (bs "NEW") 120)); (125, ECode CTake);
+   (130, ECode CRecord)].
+Example C04_instant_example :
+  code_of tl_good = code_actions prelude_order [bs "/w/a.h"] /\
+  t_out Dg (trun Dg Hx HTx cfg_default [] (bs "/w/input.c") tl_incs tl_fs tl_good) = Some None /\
+  code_of tl_late = code_actions [1; 0; 2] [bs "/w/a.h"] /\
+  t_out Dg (trun Dg Hx HTx cfg_default [] (bs "/w/input.c") tl_incs tl_fs tl_late)
+    = Some (Some [(bs "/w/a.h", Plain (bs "NEW"))]) /\
+  t_seen Dg (trun Dg Hx HTx cfg_default [] (bs "/w/input.c") tl_incs tl_fs tl_late) = [(bs "/w/a.h", Some (bs "OLD"))].
+Proof. vm_compute. repeat split; reflexivity. Qed.
